@@ -536,6 +536,10 @@ pub struct BadAuthCase {
     /// truncate the preamble (incl. padding) after this many bytes (monotone index); None = complete
     pub truncate: Option<u16>,
     pub one_by_one: bool,
+    /// seconds of silence between the (bad / unfinished) preamble and the session frames behind it:
+    /// no amount of waiting may turn an unauthenticated connection into a session
+    #[serde(default)]
+    pub pause_s: u8,
 }
 
 pub struct BadAuthFam;
@@ -545,13 +549,23 @@ impl Family for BadAuthFam {
     fn name(&self) -> &'static str {
         "badauth"
     }
-    fn strategy(&self, _tier: Tier) -> BoxedStrategy<BadAuthCase> {
-        (proptest::option::weighted(0.6, any::<u8>()), prop_oneof![Just(0u16), Just(1), Just(30), Just(255), Just(256), Just(4000), Just(65535)], proptest::option::weighted(0.25, any::<u16>()), any::<bool>())
-            .prop_map(|(flip_bit, declared, truncate, one_by_one)| BadAuthCase { flip_bit, declared, truncate, one_by_one })
+    fn fixed_cases(&self, _tier: Tier) -> Vec<BadAuthCase> {
+        // an unfinished preamble (nothing at all / half a hash / padding not completed), a long silence,
+        // then a complete session behind it
+        vec![
+            BadAuthCase { flip_bit: None, declared: 30, truncate: Some(0), one_by_one: false, pause_s: 6 },
+            BadAuthCase { flip_bit: None, declared: 30, truncate: Some(16000), one_by_one: false, pause_s: 6 },
+            BadAuthCase { flip_bit: None, declared: 30, truncate: Some(60000), one_by_one: false, pause_s: 6 },
+        ]
+    }
+    fn strategy(&self, tier: Tier) -> BoxedStrategy<BadAuthCase> {
+        let pause = if tier == Tier::Thorough { prop_oneof![8 => Just(0u8), 2 => Just(6u8), 1 => Just(12u8), 1 => Just(35u8), 1 => Just(65u8)].boxed() } else { prop_oneof![14 => Just(0u8), 1 => Just(6u8)].boxed() };
+        (proptest::option::weighted(0.6, any::<u8>()), prop_oneof![Just(0u16), Just(1), Just(30), Just(255), Just(256), Just(4000), Just(65535)], proptest::option::weighted(0.25, any::<u16>()), any::<bool>(), pause)
+            .prop_map(|(flip_bit, declared, truncate, one_by_one, pause_s)| BadAuthCase { flip_bit, declared, truncate, one_by_one, pause_s })
             .boxed()
     }
     fn case_budget_s(&self) -> u64 {
-        90
+        200
     }
     fn run(&self, case: &BadAuthCase, _cx: &CaseCtx) -> CaseResult {
         let mut out = Outcome::new();
@@ -577,6 +591,9 @@ impl Family for BadAuthFam {
                     }
                 } else {
                     let _ = rc_.send_raw(&pre).await;
+                }
+                if !accepted && case.pause_s > 0 {
+                    tokio::time::sleep(Duration::from_secs(case.pause_s as u64)).await;
                 }
                 // a valid session behind the preamble: settings, SYN, destination, payload
                 let dest = Dest::of(target.addr).encode();
@@ -622,6 +639,7 @@ impl Family for BadAuthFam {
         out.class_if(case.flip_bit.is_some(), "one-bit-off");
         out.class_if(case.truncate.is_some(), "truncated");
         out.class_if(case.declared >= 256, "L>=256");
+        out.class_if(!accepted && case.pause_s > 0, "silence-before-frames");
         Ok(out)
     }
 }
